@@ -11,7 +11,7 @@ import hashlib
 import os
 
 from vf import core
-from vf.refs import numdbref
+from vf.refs import numdbref, tables
 
 D = '0123456789'
 U = 'ABCDEFGHIJKLMNOPQRSTUVWXYZ'
@@ -123,13 +123,12 @@ def ref_ismn(x):
 
 
 def ref_isin(x):
-    from stdnum import isin
     n = pres(x, ' ')
     if not allan(n):
         return rej('format')
     if len(n) != 12:
         return rej('length')
-    if n[:2] not in isin._country_codes:
+    if n[:2] not in tables.ISIN_CODES:
         return rej('country')
     if n[11] not in D:
         return rej('checksum')
@@ -374,13 +373,12 @@ def ref_bic(x):
 
 
 def ref_isrc(x):
-    from stdnum import isrc
     n = pres(x, ' -')
     if len(n) != 12:
         return rej('length')
     if not (all(c in U for c in n[:2]) and allan(n[2:5]) and alld(n[5:])):
         return rej('format')
-    if n[:2] not in isrc._country_codes:
+    if n[:2] not in tables.ISRC_CODES:
         return rej('country')
     return ok(n)
 
